@@ -444,10 +444,10 @@ func (in *inst) post(c *astutil.Cursor) bool {
 			}
 		case in.pkgIdent(n.X, "context"):
 			switch n.Sel.Name {
-			case "WithCancel", "WithTimeout", "WithDeadline":
+			case "WithCancel", "WithTimeout", "WithDeadline", "WithCancelCause", "Cause":
 				in.used = true
 				c.Replace(vs(n.Sel.Name))
-			case "WithCancelCause", "WithTimeoutCause", "WithDeadlineCause", "AfterFunc", "WithoutCancel":
+			case "WithTimeoutCause", "WithDeadlineCause", "AfterFunc", "WithoutCancel":
 				fatalf("unsupported construct %s: context.%s", in.pos(n), n.Sel.Name)
 			}
 		case in.pkgIdent(n.X, "runtime"):
